@@ -355,6 +355,19 @@ ElemForEach::sortChildren(
     
     NodeSorter* sorter = executionContext.getNodeSorter();
 
+    // The execution context has one NodeSorter.  It is in use (it holds
+    // the keys, the nodes and the cached key values of a sort that is
+    // going on) when this sort is started from inside another one: a sort
+    // key or an attribute value template of an xsl:sort refers to a
+    // top-level variable that is evaluated now, at its first use, and
+    // whose content sorts.  Such a nested sort gets a sorter of its own.
+    NodeSorter  theNestedSorter(executionContext.getMemoryManager());
+
+    if (sorter->getSortKeys().empty() == false)
+    {
+        sorter = &theNestedSorter;
+    }
+
     NodeSortKeyVectorType&  keys = sorter->getSortKeys();
     assert(keys.empty() == true);
 
